@@ -292,9 +292,9 @@ _DECLS = ((), (), (), ('',), ('p',), ('q',), ('s',), ('p', 'q'), ('', 'p'), ('',
 
 @st.composite
 def tree_specs(draw, max_elems=12, max_depth=4, max_attrs=3, ns=True, doc_misc=True,
-               pi_targets=PI_TARGETS, misc_weight=3, elem_locals=ELEM_LOCALS):
+               pi_targets=PI_TARGETS, misc_weight=3, elem_locals=ELEM_LOCALS, min_elems=1):
     """Normalised TreeSpec.  Small name pools on purpose (nested/sibling same names are the norm)."""
-    budget = [draw(st.integers(1, max_elems)) - 1]
+    budget = [draw(st.integers(min(min_elems, max_elems), max_elems)) - 1]
     misc = _misc(pi_targets)
     elem_ns = st.sampled_from(_ELEM_NS) if ns else st.none()
     attr_ns = st.sampled_from(_ATTR_NS) if ns else st.none()
@@ -307,7 +307,7 @@ def tree_specs(draw, max_elems=12, max_depth=4, max_attrs=3, ns=True, doc_misc=T
              'a': draw(st.lists(attr, max_size=max_attrs)) if draw(st.integers(0, 2)) else [],
              't': draw(st.sampled_from(TEXTS)), 'c': [], 'tl': draw(st.sampled_from(TEXTS))}
         if depth < max_depth:
-            n = draw(st.integers(0, 4))
+            n = draw(st.integers(2 if min_elems > 1 and budget[0] >= min_elems // 2 else 0, 4))
             for _ in range(n):
                 if draw(st.integers(0, 9)) < misc_weight:
                     e['c'].append(draw(misc))
